@@ -310,10 +310,29 @@ def invalid_case():
             "at": st.integers(0, 2),
             "how": st.sampled_from(["non-dict", "missing-key", "missing-key2", "empty-dict", "alias-key", "alias-key2"]),
             "bad": st.sampled_from(BAD_ITEMS),
-            "bad_source": st.sampled_from([3, "lib/", ["a"], {"package": "htmltools"}, {}, {"dir": "x"}, 2.5, {"mapping": "proxy"}, {"mapping": "userdict"}, {"mapping": "chainmap"}]),
+            "bad_source": st.sampled_from(BAD_SOURCES),
             "single": st.booleans(),
         }
     )
+
+
+BAD_SOURCES = [3, "lib/", ["a"], {"package": "htmltools"}, {}, {"dir": "x"}, 2.5, {"mapping": "proxy"}, {"mapping": "userdict"}, {"mapping": "chainmap"}]
+
+
+def enum_invalid(tier):
+    """the complete product of the invalid-definition space (field x number of items x position x form x kind of defect)"""
+    for bs in BAD_SOURCES:
+        yield {"field": "source", "n_items": 1, "at": 0, "how": "non-dict", "bad": 3, "bad_source": bs, "single": False}
+    for f in ("script", "stylesheet", "meta"):
+        for n_items in (1, 2, 3):
+            for at in range(n_items):
+                for single in (False, True):
+                    if single and n_items != 1:
+                        continue
+                    for how in ("missing-key", "missing-key2", "empty-dict", "alias-key", "alias-key2"):
+                        yield {"field": f, "n_items": n_items, "at": at, "how": how, "bad": 3, "bad_source": 3, "single": single}
+                    for bad in BAD_ITEMS:
+                        yield {"field": f, "n_items": n_items, "at": at, "how": "non-dict", "bad": bad, "bad_source": 3, "single": single}
 
 
 REQ = {"script": ["src"], "stylesheet": ["href"], "meta": ["name", "content"]}
@@ -413,10 +432,9 @@ CLAUSES = [
     Clause(
         "invalid",
         body_invalid,
-        strategy=invalid_case,
-        quick=600,
-        thorough=4000,
-        shards_quick=1,
+        source="enum",
+        enum=enum_invalid,
+        shards_quick=2,
         shards_thorough=4,
         required=("script:missing-src", "stylesheet:missing-href", "meta:missing-name", "meta:missing-content", "script:non-dict-item", "source:dict", "source:int", "index>0", "source:non-dict-mapping", "script:non-dict-mapping-item", "script:empty-dict-item:single", "meta:empty-dict-item:single", "stylesheet:empty-dict-item", "meta:missing-name+alias", "script:missing-src+alias"),
         rule="every case",
